@@ -558,7 +558,7 @@ struct Current {
 };
 struct CurrentScope {
     bool keep;
-    CurrentScope(const Case &c, bool remember = false) : keep(remember) { Current::cur() = &c; }
+    CurrentScope(const Case &c, bool remember = true) : keep(remember) { Current::cur() = &c; }
     ~CurrentScope() {
         if (keep && Current::cur()) { Current::prev().push_back(*Current::cur()); if (Current::prev().size() > Current::PREV_MAX) Current::prev().pop_front(); }
         Current::cur() = nullptr;
